@@ -52,6 +52,41 @@ pub struct MultipartBody {
     pub content: multer::Multipart<'static>,
 }
 
+/// Reports the end of the wrapped stream one poll late.
+///
+/// While looking for the first boundary, `multer` polls its input twice in a
+/// row and treats an end of stream seen by the second poll as "incomplete
+/// multipart stream" without looking at the data which that same poll
+/// buffered.  A body that arrives in full between the two polls (which
+/// happens when the connection is driven by another thread, most easily with
+/// HTTP/2) was refused for that reason.  Ending the stream in a poll of its
+/// own makes `multer` look at everything it has buffered first.
+struct DeferEndOfStream<S> {
+    inner: S,
+    ended: bool,
+}
+
+impl<S: Stream + Unpin> Stream for DeferEndOfStream<S> {
+    type Item = S::Item;
+
+    fn poll_next(
+        mut self: std::pin::Pin<&mut Self>,
+        cx: &mut std::task::Context<'_>,
+    ) -> std::task::Poll<Option<Self::Item>> {
+        if self.ended {
+            return std::task::Poll::Ready(None);
+        }
+        match std::pin::Pin::new(&mut self.inner).poll_next(cx) {
+            std::task::Poll::Ready(None) => {
+                self.ended = true;
+                cx.waker().wake_by_ref();
+                std::task::Poll::Pending
+            }
+            other => other,
+        }
+    }
+}
+
 #[async_trait]
 impl ExclusiveExtractor for MultipartBody {
     async fn from_request<Context: ServerContext>(
@@ -91,7 +126,13 @@ impl ExclusiveExtractor for MultipartBody {
                 ),
             })?;
         Ok(MultipartBody {
-            content: multer::Multipart::new(body.into_data_stream(), boundary),
+            content: multer::Multipart::new(
+                DeferEndOfStream {
+                    inner: body.into_data_stream(),
+                    ended: false,
+                },
+                boundary,
+            ),
         })
     }
 
